@@ -324,6 +324,14 @@ def evaluate_deltas(expr, target_idx: str = None):
             target_idx = get_symbols(target_idx)
 
         for d in deltas:
+            # delta_ij where both indices are contracted and occur on no
+            # other object: sum_ij delta_ij is the dimension of the space.
+            # Removing an index would lose the sum -> keep the delta
+            if all(s not in target_idx and
+                   not any(s in obj.atoms(Index) for obj in expr.args
+                           if obj is not d)
+                   for s in d.idx):
+                continue
             # determine the killable and preferred index
             # in the case we have delta_{i p_alpha} we want to keep i_alpha
             # -> a new index is required. But for now just don't evaluate
